@@ -594,9 +594,21 @@ def _sub_slices(p):
     return Call({"self": a, "roi": roi}, lambda: a.subregion(roi), REJ, view_ok=True)
 
 
+def _overhang(a, p, lo, hi):
+    """ROIs given by corner points may stick out of the image (they are clipped)."""
+    lo, hi = list(lo), list(hi)
+    for d in range(a.space_dim):
+        if (p["open"] >> d) & 1:
+            lo[d] -= 1 + p["n"][d] % 3
+        if (p["open"] >> (d + 1)) & 1:
+            hi[d] += 1 + p["lo"][d] % 3
+    return lo, hi
+
+
 def _sub_voxels(p):
     a = mk(p["a"])
     lo, hi = _box(a, p)
+    lo, hi = _overhang(a, p, lo, hi)
     roi = darsia.VoxelArray([lo, hi])
     return Call({"self": a, "roi": roi}, lambda: a.subregion(roi), REJ, view_ok=True)
 
@@ -604,6 +616,7 @@ def _sub_voxels(p):
 def _sub_coords(p):
     a = mk(p["a"])
     lo, hi = _box(a, p)
+    lo, hi = _overhang(a, p, lo, hi)
     sp = p["a"]
     ref = RefCS(sp["dim"], sp["shape"], sp["dimensions"], sp["origin"])
     pts = np.vstack([ref.coordinate(np.array(lo) + 0.5), ref.coordinate(np.array(hi) + 0.5)])
